@@ -1725,7 +1725,7 @@ func TestVerifC17(t *testing.T) {
 	})
 	w := c17Setup(t)
 	plan, nExh := c17ExhPlan(cfg.Tier == "thorough")
-	nRand := cfg.N(6000, 600000)
+	nRand := cfg.N(6000, 500000)
 	total := nExh + nRand
 	rep.Set("exhaustive_subworkload_cases", nExh)
 	rep.Set("random_cases", nRand)
